@@ -38,6 +38,7 @@ type hookConn struct {
 	inject  []byte // delivered to the client before anything the peer sends
 	written int
 	failAt  int // absolute offset in the written stream at which Write fails; <0: never
+	tap     *bytes.Buffer // when set: everything the client writes
 }
 
 var errInjected = errors.New("c16: injected connection write fault")
@@ -75,6 +76,9 @@ func (c *hookConn) Write(p []byte) (int, error) {
 	n, err := c.Conn.Write(p)
 	c.mu.Lock()
 	c.written += n
+	if c.tap != nil {
+		c.tap.Write(p[:n])
+	}
 	c.mu.Unlock()
 	return n, err
 }
@@ -84,6 +88,7 @@ type hookDialer struct {
 	inject  []byte
 	conns   []*hookConn
 	armNext int // fault offset (relative) for connections dialled while armed; <0: none
+	tapAll  bool
 }
 
 func (d *hookDialer) dial(ctx context.Context, network, addr string) (net.Conn, error) {
@@ -97,6 +102,9 @@ func (d *hookDialer) dial(ctx context.Context, network, addr string) (net.Conn, 
 	hc := &hookConn{Conn: c, inject: append([]byte(nil), d.inject...), failAt: -1}
 	if d.armNext >= 0 {
 		hc.failAt = d.armNext
+	}
+	if d.tapAll {
+		hc.tap = &bytes.Buffer{}
 	}
 	d.conns = append(d.conns, hc)
 	return hc, nil
